@@ -50,7 +50,7 @@ class Contract:
         self.abs_ensures = kw.pop("abs_ensures", None)
         self.extra = kw
         if kw:
-            unknown = set(kw) - {"doc", "known", "not_decided", "denominators"}
+            unknown = set(kw) - {"doc", "known", "not_decided", "denominators", "yield_ensures"}
             if unknown:
                 raise ValueError(f"contract {target}: unknown keys {sorted(unknown)}")
 
@@ -362,6 +362,7 @@ class Registry:
             if isinstance(obj, T.LamTensor) and field == "*":
                 new = self.havoc_like(I, obj, "t")
                 obj.fn = new.fn
+                obj.version += 1
                 done.add((("tensor", obj.tid), "*"))
                 continue
             if isinstance(obj, list) and field == "*":
@@ -427,7 +428,22 @@ class Registry:
             c.post_setup(I, fr)
         for src in (list(c.ensures) + list(c.derived) if c.abs_ensures is None else c.abs_ensures):
             self.assume_clause(I, self.eval_clause(I, src, fr))
+        self.vacuity_guard(I, f"call:{callee}/contract-consistent")
         return result
+
+    def vacuity_guard(self, I, name):
+        """Assumptions have just been added (an invariant after havoc, a callee's postcondition): the
+        path condition must stay satisfiable, otherwise everything after would be proved vacuously.
+        An inconsistent assumption is a failed obligation of its own (a contract error or a spec
+        that the code contradicts), never a silent pass."""
+        ctx = I.ctx
+        r = ctx._check()
+        if r == z3.unsat:
+            from .paths import Obligation
+            ctx.obligations.append(Obligation(f"{ctx.func_label}/{name}", "vacuity", "failed",
+                                              note="assumed clauses are inconsistent with the path condition",
+                                              lineno=ctx.cur_line, func=ctx.func_label))
+            raise PathEnd()
 
     # -- loops with invariants ----------------------------------------------
     def invariant_loop(self, I: Interp, node, fr: Frame, ordinal, spec: dict, it):
@@ -466,7 +482,12 @@ class Registry:
         for nm, ty in spec_locals.items():
             if nm not in havocked_locals:
                 fr.locals[nm] = self.make_value(I, ty, nm)
+                havocked_locals.add(nm)
         allowed = self.havoc_paths(I, spec.get("modifies", []), cfr, tag=label)
+        for nm in havocked_locals:
+            v = fr.locals.get(nm)
+            if isinstance(v, SymSeq):
+                allowed.add((("symseq", v.oid), "*"))      # a havocked local sequence may grow
         for w in allowed:
             ctx.log_write(*w)
         if is_for:
@@ -477,6 +498,7 @@ class Registry:
         # 3. assume invariant
         for src in spec.get("invariant", []):
             self.assume_clause(I, self.eval_clause(I, src, cfr))
+        self.vacuity_guard(I, f"{label}/invariant-consistent")
         # 4. iterate or exit
         if is_for:
             go = ctx.branch(to_z3(k) < to_z3(count))
@@ -485,11 +507,15 @@ class Registry:
         if go:
             if is_for:
                 I.assign(node.target, item(k), fr)
+                fr.locals[kname] = k           # ghost local: visible to invariants of inner loops
+                fr.locals[nname] = count
             v0 = None
             if "variant" in spec:
                 v0 = I.eval(parse_expr(spec["variant"]), cfr)
                 ctx.prove(f"{label}/variant-bounded", ops.compare(ast.GtE, v0, 0), "variant")
             log: set = set()
+            # objects allocated during the iteration are not part of the loop's frame
+            marks = (_peek(_values_ids), _peek(T._tid))
             ctx.heap_writes.append(log)
             broke = False
             try:
@@ -501,7 +527,7 @@ class Registry:
                     broke = True
             finally:
                 ctx.heap_writes.pop()
-            extra = {w for w in log if w not in allowed and not _is_fresh_write(w, log)}
+            extra = {w for w in log if w not in allowed and not _is_fresh_write(w, marks)}
             extra = {w for w in extra if not self._write_ok(w, spec)}
             if extra:
                 raise Unsupported(f"{fr.label}/{label}: loop body writes {sorted(map(str, extra))} "
@@ -624,7 +650,18 @@ class Registry:
     tensor_norm = _unsupported("tensor norm")
     string_chars = _unsupported("list(str) of a symbolic string")
     string_join = _unsupported("str.join of symbolic items")
-    symseq_append = _unsupported("append to a symbolic-length sequence")
+    def symseq_append(self, I, seq, value):
+        """list.append on a symbolic-length sequence: length + 1, last element = value"""
+        if I.ctx.speculative:
+            raise NeedFork()
+        n0, f0 = seq.length, seq.fn
+        seq.length = ops.add(n0, 1)
+        if is_num(value) or is_boolish(value):
+            seq.fn = lambda k: ops.ite(ops.equal(k, n0), value, f0(k))
+        else:
+            seq.fn = lambda k: value if (ops.equal(k, n0) is True) else f0(k)
+        I.ctx.log_write(("symseq", seq.oid), "*")
+        return None
     opaque_tensor = _unsupported("tensor from an opaque value")
     cplx_abs = _unsupported("abs of a complex value")
     def ceil_int(self, I, x):
@@ -670,5 +707,24 @@ def _target_names(t) -> set:
     return {n.id for n in ast.walk(t) if isinstance(n, ast.Name)}
 
 
-def _is_fresh_write(w, log):
+from . import values as _V
+_values_ids = _V._ids
+
+
+def _peek(counter):
+    """next value of an itertools.count without consuming it"""
+    import copy
+    return next(copy.copy(counter))
+
+
+def _is_fresh_write(w, marks):
+    """write to an object / tensor allocated after the loop iteration started"""
+    oid_mark, tid_mark = marks
+    target = w[0]
+    if isinstance(target, int):
+        return target >= oid_mark
+    if isinstance(target, tuple) and target[0] == "tensor":
+        return target[1] >= tid_mark
+    if isinstance(target, tuple) and target[0] == "symseq":
+        return target[1] >= oid_mark
     return False
